@@ -5,7 +5,7 @@
    os.fsdecode are taken as mutually inverse on file names - surrogateescape - which is validated by the
    harness, not proved), so that erasing the tags of the typed transcription below gives back the
    validated byte-level model [Emitter.emit]. *)
-Require Import WD.Base.Prelude WD.Base.BStr WD.Model.SubEvents WD.Model.Emitter.
+Require Import WD.Base.Prelude WD.Base.BStr WD.Model.SubEvents WD.Model.Emitter WD.Model.Fs.
 
 (* ------------------------------------------------------------------ names *)
 (* the watched root followed by real, valid entry names *)
@@ -23,6 +23,30 @@ Definition ev_ok (root : bytes) (e : nevent) : Prop := roe root (ev_src e) /\ ro
 
 Definition item_raws (it : item) : list raw :=
   match it with Single e => [e] | Pair f t => [f; t] end.
+
+(* masks for which queue_events never reports the parent directory (in particular everything the kernel sends with an
+   empty name: IN_ATTRIB|IN_ISDIR, IN_DELETE_SELF, IN_IGNORED about the watched directory itself) *)
+Definition noparent (m : N) : bool :=
+  negb (is_moved_to m) && negb (is_delete m) && negb (is_moved_from m) && negb (is_create m) &&
+  (negb (is_close_write m) || is_directory m).
+
+(* a raw kernel record: a valid entry name, or no name and a mask of the kind above (so never IN_MOVED_TO, whose
+   handler in read_events joins the name unconditionally) *)
+Definition kraw_ok (e : kraw) : Prop :=
+  valid_name (k_name e) = true \/ (k_name e = [] /\ noparent (k_mask e) = true).
+
+(* an InotifyEvent as the reader outputs it: about an entry strictly below the root, or about a watched directory
+   itself (possibly the root) with a mask that never reports the parent *)
+Definition raw_ok (root : bytes) (x : raw) : Prop :=
+  below root (r_path x) \/ (rooted root (r_path x) /\ noparent (r_mask x) = true).
+
+Definition fs_names_ok (t : fs) : Prop := forall e, In e t -> valid_name (basename (f_path e)) = true.
+
+Definition op_names_ok (o : op) : Prop :=
+  match o with
+  | Touch p | Write p | Chmod p | Unlink p | Mkdir p | Rmdir p => valid_name (basename p) = true
+  | Rename p q => valid_name (basename p) = true /\ valid_name (basename q) = true
+  end.
 
 (* ------------------------------------------------------------------ types *)
 Inductive ptag := TStr | TBytes.
